@@ -108,7 +108,11 @@ func runHS(c *Case) []string {
 		// the descriptor belongs to the net.Conn the stream dialled: close it through the stream
 		_ = s.CloseNextLayer()
 	}()
+	dead := false
 	return runOps(c, func(op string, a []string) string {
+		if dead {
+			return "HANDSHAKE-TIMEOUT"
+		}
 		switch op {
 		case "hs":
 			_ = s.CloseNextLayer() // a previous connection of this stream
@@ -170,7 +174,15 @@ func runHS(c *Case) []string {
 			}
 			var herr error
 			if mode == "sync" {
-				herr = s.Handshake(url, hdrs...)
+				// watchdog: a handshake that never returns although the server sent everything must fail, not hang the run
+				fin := make(chan error, 1)
+				go func() { fin <- s.Handshake(url, hdrs...) }()
+				select {
+				case herr = <-fin:
+				case <-time.After(4 * time.Second):
+					dead = true
+					return "HANDSHAKE-TIMEOUT"
+				}
 			} else {
 				done := false
 				s.AsyncHandshake(url, func(err error) { herr = err; done = true }, hdrs...)
@@ -178,6 +190,7 @@ func runHS(c *Case) []string {
 					_ = ioc.RunOneFor(5 * time.Millisecond)
 				}
 				if !done {
+					dead = true
 					return "HANDSHAKE-TIMEOUT"
 				}
 			}
